@@ -101,7 +101,8 @@ def _safe_timezone(
         return local_timezone()
 
     if isinstance(obj, (int, float)):
-        obj = int(obj * 60 * 60)
+        # To the nearest second: 16.9 * 3600 is 60839.99999999999
+        obj = round(obj * 60 * 60)
     elif isinstance(obj, _datetime.tzinfo):
         # zoneinfo
         if hasattr(obj, "key"):
